@@ -164,7 +164,7 @@ def parse_output(text):
     return res, last
 
 
-SKIP = ("Lx", "Lk", "A+", "A-", "T", "END", "P", "OpX", "CL", "F>", "Lc!", "O!")
+SKIP = ("Lx", "Lk", "A+", "A-", "T", "END", "P", "OpX", "CL", "F>", "Lc!", "O!", "Sn", "Sc")
 
 
 def comparable(lines):
@@ -242,9 +242,11 @@ def classify_diff(exp, obs):
 # ---------------------------------------------------------------------------
 class ExprRun:
     def __init__(self, seed, n_programs, per_tu, max_depth, max_leaves, variant, budget, ops=None,
-                 name="expr"):
+                 name="expr", programs=None, scn_fn=None, alias=None):
         self.seed, self.variant, self.budget = seed, variant, budget
-        self.progs = gen_expr.generate(seed, n_programs, max_depth, max_leaves, ops)
+        self.alias = alias or {}
+        self.scn_fn = scn_fn or scenarios_for
+        self.progs = programs if programs is not None else gen_expr.generate(seed, n_programs, max_depth, max_leaves, ops)
         self.per_tu = per_tu
         self.name = name
         self.dropped = []
@@ -348,6 +350,50 @@ class ExprRun:
         if nO and nX:
             report("C02", "fault:completion-and-exception", "both a completion and an escaped exception",
                    pid, sc, lines, None)
+        # stream protocol rules (C13), independent of the model --------------------------
+        probe_sids = set(n["sid"] for n in gen_expr.walk(spec) if n.get("s") == "probe")
+        if probe_sids:
+            outstanding = {}
+            started_next = {}
+            cleanup_starts = {}
+            cleanup_done = {}
+            o_seen = False
+            for l in lines:
+                p = l.split(" ")
+                if p[0] == "L+":
+                    lid = int(p[1])
+                    sid, kind = divmod(lid, 10)
+                    if sid not in probe_sids:
+                        continue
+                    if kind == 1:
+                        if outstanding.get(sid):
+                            report("C13", "stream:next-started-while-next-outstanding", l, pid, sc, lines, None)
+                        if cleanup_starts.get(sid):
+                            report("C13", "stream:next-after-cleanup", l, pid, sc, lines, None)
+                        outstanding[sid] = True
+                        started_next[sid] = True
+                    elif kind == 2:
+                        cleanup_starts[sid] = cleanup_starts.get(sid, 0) + 1
+                        if cleanup_starts[sid] > 1:
+                            report("C13", "stream:cleanup-started-twice", l, pid, sc, lines, None)
+                        if outstanding.get(sid):
+                            report("C13", "stream:cleanup-started-while-next-outstanding", l, pid, sc, lines, None)
+                elif p[0] == "Lc":
+                    lid = int(p[1])
+                    sid, kind = divmod(lid, 10)
+                    if sid not in probe_sids:
+                        continue
+                    if kind == 1:
+                        outstanding[sid] = False
+                    elif kind == 2:
+                        cleanup_done[sid] = True
+                elif p[0] == "O":
+                    o_seen = True
+                    for sid in started_next:
+                        if not cleanup_done.get(sid) and not faulty_line(lines):
+                            report("C13", "stream:result-delivered-before-cleanup-finished",
+                                   "stream %d: consumer completed (%s) before cleanup of a started stream finished" % (sid, l),
+                                   pid, sc, lines, None)
         # trait soundness (C11) -------------------------------------------
         P = [l for l in lines if l.startswith("P ")]
         O = [l for l in lines if l.startswith("O ")]
@@ -411,11 +457,12 @@ class ExprRun:
         rng = random.Random(self.seed * 7919 + 13)
         jobs = []
         for (pid, spec, tok, lv) in self.progs:
-            scs = scenarios_for(spec, tok, rng, self.budget)
+            scs = self.scn_fn(spec, tok, rng, self.budget)
             jobs.append((pid, spec, tok, scs))
         self.stats["programs"] = len(jobs)
 
         def report(prop, oracle, what, pid, sc, lines, exp):
+            prop = self.alias.get(prop, prop)
             if prop not in verdict_by_prop:
                 return
             spec = self.spec_of[pid]
@@ -527,7 +574,11 @@ class ExprRun:
         }
 
 
+def faulty_line(lines):
+    return any(l.startswith("T ") for l in lines)
+
+
 def root_class(spec):
     """scenario class for violation keys: the multiset of composite adaptors in the program"""
-    ops = sorted(set(n["op"] for n in gen_expr.walk(spec)) - {"leaf", "just", "then"})
+    ops = sorted(set(n.get("op") or ("s:" + n["s"]) for n in gen_expr.walk(spec)) - {"leaf", "just", "then", "s:probe"})
     return "+".join(ops)[:120] or "leaf"
